@@ -7,6 +7,8 @@ for p in sys.argv[1:]:
         if not os.path.exists(d + 'patch.diff'):
             continue
         dst = '/verif/refactors/A-%s-%s/' % (p, rn)
+        if os.path.exists(dst + 'patch.diff'):
+            continue        # already imported (may have been re-created against a later /repo)
         os.makedirs(dst, exist_ok=True)
         shutil.copy(d + 'patch.diff', dst + 'patch.diff')
         notes = open(d + 'NOTES.md').read() if os.path.exists(d + 'NOTES.md') else ''
